@@ -201,6 +201,8 @@ def run(ctx):
     import world
     prog2, info2 = world.load()
     C15_limits.check(ctx, prog2)
+    import C15_pool
+    C15_pool.check(ctx, prog2)
 
 
 def concretise(m, v, now):
@@ -462,5 +464,10 @@ def replay_file(path):
         bad = C15_limits_replay.violations(rp['rp']['mode'], rp['limit'], rp['rp']['qlen'], rp['rp']['busy'], obs)
         print('native:', obs, 'violated:', bad)
         return 1 if bad else 0
+    if rp.get('which') == 'pool':
+        import C15_pool_replay
+        r = C15_pool_replay.replay(rp['rp'])
+        print(r['detail'])
+        return 1 if r['replayed'] else 0
     print('unknown replay scenario')
     return 2
